@@ -52,20 +52,37 @@ MAX_REGS = 3
 GENERIC_UNDECLARED = ["foo", "not_in_fixeddict", "", 0, None, "pickleable"]
 
 
-def library_types():
-    """Ordered {name: class} of every fixeddict type of the library."""
+def load_types():
+    """({name: class} of every importable library fixeddict type, [(module, exception)] for the others).
+
+    Importing the library copies and builds fixeddicts at module level, so a broken fixeddict can make
+    the import itself fail; that is reported as a failure of this property (shard ``__import__``)
+    and the remaining types are still exercised.
+    """
     import importlib
 
-    F = importlib.import_module("vc2_conformance.bitstream.vc2_fixeddicts")
     out = {}
-    for name in F.__all__:
-        obj = getattr(F, name)
-        if isinstance(obj, type) and issubclass(obj, dict) and hasattr(obj, "entry_objs"):
-            out[name] = obj
-    out["State"] = importlib.import_module("vc2_conformance.pseudocode.state").State
-    out["VideoParameters"] = importlib.import_module("vc2_conformance.pseudocode.video_parameters").VideoParameters
-    out["CodecFeatures"] = importlib.import_module("vc2_conformance.codec_features").CodecFeatures
-    return out
+    errors = []
+    try:
+        F = importlib.import_module("vc2_conformance.bitstream.vc2_fixeddicts")
+        for name in F.__all__:
+            obj = getattr(F, name)
+            if isinstance(obj, type) and issubclass(obj, dict) and hasattr(obj, "entry_objs"):
+                out[name] = obj
+    except Exception as exc:
+        errors.append(("vc2_conformance.bitstream.vc2_fixeddicts", exc))
+    for mod, name in [("vc2_conformance.pseudocode.state", "State"),
+                      ("vc2_conformance.pseudocode.video_parameters", "VideoParameters"),
+                      ("vc2_conformance.codec_features", "CodecFeatures")]:
+        try:
+            out[name] = getattr(importlib.import_module(mod), name)
+        except Exception as exc:
+            errors.append((mod, exc))
+    return out, errors
+
+
+def library_types():
+    return load_types()[0]
 
 
 def undeclared_keys(name, types):
@@ -74,7 +91,7 @@ def undeclared_keys(name, types):
     for k in list(types[name].entry_objs)[:3]:
         out += [k + "_", k.upper(), k[:-1], " " + k]
     for other in ("FrameSize", "ParseInfo", "State", "CodecFeatures", "HQSlice"):
-        if other != name:
+        if other != name and other in types:
             out += list(types[other].entry_objs)[:2]
     seen = []
     for k in out:
@@ -666,13 +683,25 @@ def _key_error_class():
 
 
 def shards(tier):
-    return list(library_types())
+    types, errors = load_types()
+    return list(types) + (["__import__"] if errors else [])
+
+
+def report_import_errors(col):
+    for mod, exc in load_types()[1]:
+        col.fail(col.crash_bucket(exc, prefix="import"), {"kind": "import", "module": mod},
+                 "importing %s (which builds and copies fixeddicts at module level) failed with %s: %s"
+                 % (mod, type(exc).__name__, exc))
 
 
 def run_shard(spec, ctx):
     from hypothesis import HealthCheck, Phase, seed, settings
     from hypothesis.stateful import run_state_machine_as_test
 
+    if spec == "__import__":
+        ctx.col.evaluations += 1
+        report_import_errors(ctx.col)
+        return
     types = library_types()
     machine = make_machine(ctx.col, spec, types, _key_error_class(),
                            samples=1 if spec in ("FrameSize", "ParseInfo", "State", "VideoParameters", "CodecFeatures",
@@ -693,4 +722,7 @@ def run_shard(spec, ctx):
 
 def replay(data, col):
     col.evaluations += 1
+    if data.get("kind") == "import":
+        report_import_errors(col)
+        return
     replay_fd(data, col, library_types(), _key_error_class())
